@@ -21,6 +21,8 @@ var (
 )
 
 // stored pairing sets also contain degenerate entities: one without a key, one with a 5-byte key
+var idAdmin = refctl.NewIdentity("AAAAAAAA-1111-2222-3333-444444444444", "admin-A")
+
 var (
 	idKeyless  = refctl.Identity{ID: "keyless-entity"}
 	idShortKey = refctl.Identity{ID: "shortkey-entity", Pub: []byte{1, 2, 3, 4, 5}}
@@ -33,27 +35,32 @@ var c03Alphabet = []string{
 	"X:finish-len0", "X:finish-len15", "X:finish-replay-L", "X:finish-tag-flipped",
 	"L:finish-reordered", "L:finish-stale", "X:state-7", "X:method-1", "X:reopen", "L:reopen",
 	"X:finish-naming-keyless-entity", "X:finish-naming-shortkey-entity",
+	"X:start-replay-L", "L:finish-genuine-begin", "L:finish-genuine-end",
 }
 
 // connection state in the reference model
 type c03Conn struct {
-	k        *refctl.Ctl
-	name     string
-	pending  *refctl.Verify // exchange whose start was the immediately preceding verify message and was accepted
-	last     *refctl.Verify // most recent accepted exchange (context for forged finishes)
-	prev     *refctl.Verify // the accepted exchange before last (for "stale")
-	verified bool
-	lastM3   []byte // L's most recent genuine finish bytes (visible to X on the wire)
-	dead     bool
+	k         *refctl.Ctl
+	name      string
+	pending   *refctl.Verify // exchange whose start was the immediately preceding verify message and was accepted
+	last      *refctl.Verify // most recent accepted exchange (context for forged finishes)
+	prev      *refctl.Verify // the accepted exchange before last (for "stale")
+	verified  bool
+	lastM3    []byte         // L's most recent genuine finish bytes (visible to X on the wire)
+	lastM1    []byte         // L's most recent start bytes
+	split     *refctl.Verify // L: finish request whose head was sent (handler waits for the body)
+	splitBody []byte
+	dead      bool
 }
 
 type c03Run struct {
-	c     *fw.Ctx
-	b     *bed
-	conns map[string]*c03Conn
-	hist  []string
-	seq   int
-	fail  func(sig, desc string)
+	lUnpaired bool // L's pairing was removed
+	c         *fw.Ctx
+	b         *bed
+	conns     map[string]*c03Conn
+	hist      []string
+	seq       int
+	fail      func(sig, desc string)
 }
 
 func (r *c03Run) conn(name string) *c03Conn {
@@ -100,6 +107,9 @@ func (r *c03Run) step(ev string) bool {
 		return false
 	}
 	op := parts[1]
+	if cn.split != nil && op != "finish-genuine-end" {
+		return true // the connection is in the middle of a request
+	}
 	post := func(body []byte) (*refctl.Msg, error) {
 		m, _, err := cn.k.Do("POST", "/pair-verify", refctl.CTPairing, body)
 		if err != nil {
@@ -126,6 +136,53 @@ func (r *c03Run) step(ev string) bool {
 		cn.dead = true
 		r.conn(parts[0])
 		return true
+	case "start-replay-L":
+		// X sends the bytes of L's most recent start request (it saw them on the wire); it does not know L's
+		// ephemeral secret, so whatever comes back it cannot derive the exchange keys
+		body := refctl.VerifyM1(pat(32, 77))
+		if l := r.conns["L"]; l != nil && l.lastM1 != nil {
+			body = l.lastM1
+		}
+		m, err = post(body)
+		cls, isErr, _ := c03Class(m, err)
+		r.c.Class(op + "→" + cls)
+		if !isErr {
+			z := refctl.NewVerify(refctl.Seed32("replayed"))
+			t, _ := refctl.TLVMap(m.Body)
+			z.AccEph = t[refctl.TagPublicKey]
+			z.Shared = refctl.Seed32("unknown-to-X")
+			z.EncKey = refctl.Seed32("unknown-to-X-enc")
+			cn.prev, cn.last, cn.pending = cn.last, z, nil
+		}
+		return true
+	case "finish-genuine-begin":
+		if cn.verified || cn.split != nil || pending == nil {
+			cn.pending = pending // not enabled: nothing is sent, the model state is unchanged
+			return true
+		}
+		isFinish = true
+		body := pending.M3(idL)
+		cn.lastM3 = body
+		if berr := cn.k.BeginRequest("POST", "/pair-verify", refctl.CTPairing, len(body)); berr != nil {
+			cn.dead = true
+			return true
+		}
+		cn.split, cn.splitBody = pending, body
+		cn.pending = pending
+		return true
+	case "finish-genuine-end":
+		if cn.split == nil {
+			cn.pending = pending // not enabled: nothing is sent
+			return true
+		}
+		pending = cn.split
+		cn.split = nil
+		isFinish = true
+		expectVerify = !r.lUnpaired
+		m, _, err = cn.k.FinishRequest(cn.splitBody)
+		if err != nil {
+			cn.dead = true
+		}
 	case "start", "start-31", "start-33", "start-empty", "start-zero-point":
 		v := refctl.NewVerify(refctl.Seed32(fmt.Sprintf("%s:eph:%d", cn.name, r.seq)))
 		pub := v.EphPub
@@ -138,6 +195,9 @@ func (r *c03Run) step(ev string) bool {
 			pub = nil
 		case "start-zero-point":
 			pub = make([]byte, 32)
+		}
+		if op == "start" {
+			cn.lastM1 = refctl.VerifyM1(pub)
 		}
 		m, err = post(refctl.VerifyM1(pub))
 		cls, isErr, _ := c03Class(m, err)
@@ -166,7 +226,7 @@ func (r *c03Run) step(ev string) bool {
 	case "finish-genuine":
 		isFinish = true
 		if pending != nil && cn.name == "L" {
-			expectVerify = true
+			expectVerify = !r.lUnpaired
 			m, err = post(pending.M3(idL))
 			cn.lastM3 = pending.RawM3
 		} else {
@@ -262,7 +322,7 @@ func (r *c03Run) probe() {
 	path := fmt.Sprintf("/characteristics?id=%d.%d", aid, iid)
 	for _, name := range []string{"X", "L"} {
 		cn := r.conns[name]
-		if cn == nil || cn.dead {
+		if cn == nil || cn.dead || cn.split != nil { // a connection in the middle of a request cannot be probed
 			continue
 		}
 		if cn.verified {
@@ -297,16 +357,24 @@ func (r *c03Run) probe() {
 }
 
 type c03Case struct {
-	Hist []string `json:"hist"`
+	Prefix string   `json:"prefix,omitempty"`
+	Hist   []string `json:"hist"`
 }
 
-func c03Exec(c *fw.Ctx, hist []string) (ok bool) {
+func c03Exec(c *fw.Ctx, hist []string) (ok bool) { return c03ExecFrom(c, "", hist) }
+
+// c03ExecFrom runs a history from one of the initial states:
+//
+//	""                    L is paired and has not connected yet
+//	"L-verified"          L has completed a genuine pair-verify on its connection (its messages are on record)
+//	"L-used-then-removed" L verified once and disconnected, then an administrator removed L's pairing
+func c03ExecFrom(c *fw.Ctx, prefix string, hist []string) (ok bool) {
 	c.Eval(1)
 	c.State(1)
 	c.Trace(1)
 	c.Transition(len(hist))
 	world.ResetCapture()
-	b, err := newBed(c, bedOpt{Seed: []refctl.Identity{idL, idKeyless, idShortKey}})
+	b, err := newBed(c, bedOpt{Seed: []refctl.Identity{idL, idKeyless, idShortKey, idAdmin}})
 	if err != nil {
 		c.Infra("bed: " + err.Error())
 		return false
@@ -316,7 +384,41 @@ func c03Exec(c *fw.Ctx, hist []string) (ok bool) {
 	failed := false
 	r.fail = func(sig, desc string) {
 		failed = true
-		c.Report(sig, desc+" — history "+strings.Join(hist, ", "), c03Case{Hist: hist})
+		where := ""
+		if prefix != "" {
+			where = " from state " + prefix
+			sig += "/from:" + prefix
+		}
+		c.Report(sig, desc+" — history"+where+" "+strings.Join(hist, ", "), c03Case{Prefix: prefix, Hist: hist})
+	}
+	switch prefix {
+	case "L-verified", "L-used-then-removed":
+		if !r.step("L:start") || !r.step("L:finish-genuine") {
+			if !failed {
+				c.Infra("prefix " + prefix + " could not be established")
+			}
+			return !failed
+		}
+		if prefix == "L-used-then-removed" {
+			r.conns["L"].k.Close()
+			r.conns["L"].dead = true
+			k, err := b.Dial()
+			if err != nil {
+				c.Infra(err.Error())
+				return false
+			}
+			if _, ec, err := refctl.PairVerify(k, idAdmin, refctl.Seed32("admin"), b.AccLTPK); err != nil || ec != 0 {
+				c.Infra(fmt.Sprintf("admin verify: %v %d", err, ec))
+				return false
+			}
+			m, _, err := k.Do("POST", "/pairings", refctl.CTPairing, refctl.TLVEncode(refctl.T(refctl.TagState, []byte{1}), refctl.T(refctl.TagMethod, []byte{4}), refctl.T(refctl.TagIdentifier, []byte(idL.ID))))
+			if err != nil || m.Status != 200 {
+				c.Infra(fmt.Sprintf("remove pairing: %v %v", m, err))
+				return false
+			}
+			k.Close()
+			r.lUnpaired = true
+		}
 	}
 	for _, ev := range hist {
 		if !r.step(ev) {
@@ -354,18 +456,40 @@ func c03Run1(c *fw.Ctx) {
 		}
 		return !c03Exec(c, hist) // a violating history is not extended (its extensions fail for the same reason)
 	})
+	// the same alphabet from non-initial states (depth 2 quick / 3 thorough)
+	full := c03Alphabet
+	d2 := 2
+	if c.Thorough() {
+		d2 = 3
+	}
+	for _, prefix := range []string{"L-verified", "L-used-then-removed"} {
+		prefix := prefix
+		alpha := full
+		if prefix == "L-used-then-removed" && !c.Thorough() {
+			// establishing this state costs a second (hc announces the unpairing over mDNS inside the handler): quick uses
+			// the symbols that matter after a removal
+			alpha = []string{"L:start", "L:finish-genuine", "L:reopen", "X:start", "X:finish-replay-L", "X:finish-signed-by-X-naming-L", "X:start-replay-L"}
+		}
+		exploreTree(c, len(alpha), d2, func(h []int) bool {
+			var hist []string
+			for _, s := range h {
+				hist = append(hist, alpha[s])
+			}
+			return !c03ExecFrom(c, prefix, hist)
+		})
+	}
 }
 
 func init() {
 	fw.Register(&fw.Check{
 		ID:    "C03",
 		Level: "model_checking",
-		Rule:  "every history of length ≤3 (quick, 18 symbols) / ≤4 (thorough, 24 symbols) over the pair-verify alphabet on an adversary connection X and a legitimate connection L (start valid / 31 / 33 / 0-byte key / all-zero point; finish genuine, signed by X naming L, unknown name, naming the accessory, sealed under zero / wrong key, 0 and 15 byte payloads, tag flipped, L's captured finish replayed, L's signature over reordered or stale material, naming a stored entity that has no key / a 5-byte key; unknown state; unknown method; reopen) against the real transport over TCP; each node is replayed on a fresh system; after every event the response is compared with the reference model (verified ⇔ genuine finish by L directly after an accepted start, computed by the independent controller), and at the end of every history each connection is probed destructively: an unverified one must answer plaintext, refuse protected reads and not serve ciphertext under its own exchange keys; a verified one must serve encrypted requests. states = tree nodes, distinct_nontrivial = distinct (event → response class) pairs",
+		Rule:  "every history of length ≤3 (quick, 18 symbols) / ≤4 (thorough, 24 symbols) over the pair-verify alphabet on an adversary connection X and a legitimate connection L (start valid / 31 / 33 / 0-byte key / all-zero point; finish genuine, signed by X naming L, unknown name, naming the accessory, sealed under zero / wrong key, 0 and 15 byte payloads, tag flipped, L's captured finish replayed, L's signature over reordered or stale material, naming a stored entity that has no key / a 5-byte key; unknown state; unknown method; reopen; L's start replayed by X; L's genuine finish split with Expect: 100-continue so that its handler overlaps with later events) against the real transport over TCP; each node is replayed on a fresh system; after every event the response is compared with the reference model (verified ⇔ genuine finish by L directly after an accepted start, computed by the independent controller), and at the end of every history each connection is probed destructively: an unverified one must answer plaintext, refuse protected reads and not serve ciphertext under its own exchange keys; a verified one must serve encrypted requests. The same alphabet (all 27 symbols) is also explored to depth 2 (thorough 3) from two non-initial states: L already verified on its connection, and L verified once and then removed by an administrator through /pairings (its genuine finish must then be refused). states = tree nodes, distinct_nontrivial = distinct (event → response class) pairs",
 		Run:   c03Run1,
 		Replay: func(c *fw.Ctx, raw json.RawMessage) {
 			var cas c03Case
 			json.Unmarshal(raw, &cas)
-			c03Exec(c, cas.Hist)
+			c03ExecFrom(c, cas.Prefix, cas.Hist)
 		},
 		Budget: func(t string) time.Duration {
 			if t == "thorough" {
